@@ -7,24 +7,24 @@ Import ListNotations.
 
 Section Ind.
   Variable P : jtext -> Prop.
-  Hypothesis HStr : forall chars, P (JStr chars).
-  Hypothesis HArr : forall items, Forall P items -> P (JArr items).
-  Hypothesis HObjG : forall f wr k, P (JObj f wr (JBGlyph k)).
-  Hypothesis HObjT : forall f wr t, P t -> P (JObj f wr (JBText t)).
-  Hypothesis HObjN : forall f wr, P (JObj f wr JBNone).
+  Hypothesis HStr : forall chars, P (TxStr chars).
+  Hypothesis HArr : forall items, Forall P items -> P (TxArr items).
+  Hypothesis HObjG : forall f wr k d, P (TxObj f wr (JBGlyph k d)).
+  Hypothesis HObjT : forall f wr t, P t -> P (TxObj f wr (JBText t)).
+  Hypothesis HObjN : forall f wr, P (TxObj f wr JBNone).
 
   Fixpoint jtext_induction (t : jtext) : P t :=
     match t with
-    | JStr c => HStr c
-    | JArr items =>
+    | TxStr c => HStr c
+    | TxArr items =>
         HArr items ((fix go (l : list jtext) : Forall P l :=
                        match l with
                        | [] => Forall_nil _
                        | x :: r => Forall_cons x (jtext_induction x) (go r)
                        end) items)
-    | JObj f wr (JBGlyph k) => HObjG f wr k
-    | JObj f wr (JBText t') => HObjT f wr t' (jtext_induction t')
-    | JObj f wr JBNone => HObjN f wr
+    | TxObj f wr (JBGlyph k d) => HObjG f wr k d
+    | TxObj f wr (JBText t') => HObjT f wr t' (jtext_induction t')
+    | TxObj f wr JBNone => HObjN f wr
     end.
 End Ind.
 
@@ -57,12 +57,12 @@ Qed.
 (* the characters and glyphs of the document in document order *)
 Fixpoint jt_kinds (t : jtext) {struct t} : list kind :=
   match t with
-  | JStr chars => map KChar chars
-  | JArr items => (fix go (l : list jtext) : list kind :=
+  | TxStr chars => map KChar chars
+  | TxArr items => (fix go (l : list jtext) : list kind :=
                      match l with [] => [] | x :: r => jt_kinds x ++ go r end) items
-  | JObj _ _ (JBGlyph k) => [k]
-  | JObj _ _ (JBText t') => jt_kinds t'
-  | JObj _ _ JBNone => []
+  | TxObj _ _ (JBGlyph k _) => [k]
+  | TxObj _ _ (JBText t') => jt_kinds t'
+  | TxObj _ _ JBNone => []
   end.
 
 Theorem jt_emit_kinds t : forall f, map c_kind (jt_emit f t) = jt_kinds t.
